@@ -311,9 +311,3 @@ def install():
     simh5.install()
 
 
-def subs_for(prop):
-    return {}
-
-
-def jobs_for(prop, tier):
-    return []
